@@ -172,7 +172,7 @@ def extract(repo, dest):
         shutil.rmtree(tmp, ignore_errors=True)
 
 
-def prune(keep=300, min_age_s=900):
+def prune(keep=400, min_age_s=3600):
     """drop old fact sets; never one that was used in the last 15 minutes (another check may be reading it)"""
     d = os.path.join(CACHE, "facts")
     if not os.path.isdir(d):
@@ -180,12 +180,24 @@ def prune(keep=300, min_age_s=900):
     now = time.time()
     ents = sorted((os.path.getmtime(os.path.join(d, e)), e) for e in os.listdir(d))
     for mt, e in ents[:-keep]:
-        if now - mt > min_age_s:
-            shutil.rmtree(os.path.join(d, e), ignore_errors=True)
-            try:
-                os.unlink(os.path.join(CACHE, "locks", e))
-            except OSError:
-                pass
+        if now - mt <= min_age_s:
+            continue
+        # delete under the tree's own lock and only if it is still old: a check that has just been handed this fact set (it touches the
+        # directory under the same lock) must not lose it while reading
+        try:
+            lf = open(os.path.join(CACHE, "locks", e), "w")
+        except OSError:
+            continue
+        try:
+            fcntl.flock(lf, fcntl.LOCK_EX | fcntl.LOCK_NB)
+        except OSError:
+            lf.close(); continue
+        try:
+            p_ = os.path.join(d, e)
+            if os.path.isdir(p_) and time.time() - os.path.getmtime(p_) > min_age_s:
+                shutil.rmtree(p_, ignore_errors=True)
+        finally:
+            fcntl.flock(lf, fcntl.LOCK_UN); lf.close()
 
 
 def facts_dir(repo="/repo"):
